@@ -162,7 +162,7 @@ class RunResult:
 # known findings
 # ------------------------------------------------------------------------------------------
 def load_known_findings():
-    path = os.path.join(VERIF_DIR, "known_findings.json")
+    path = os.environ.get("VERIF_KNOWN_FINDINGS") or os.path.join(VERIF_DIR, "known_findings.json")  # (override: triage aid)
     if not os.path.exists(path):
         return {"findings": [], "fixed": []}
     with open(path) as f:
